@@ -45,16 +45,18 @@ struct Cell {
     std::function<void(u16)> set;
     std::function<u16(void)> get;
     u16 index = 0;
+    // Backing word of cells (or of the unmodelled bits of a bit field cell) that keep the written value
+    // themselves; null for cells that are pure views of a peripheral. Shared with the set/get closures.
+    std::shared_ptr<u16> storage;
 
     Cell(std::function<void(u16)> set, std::function<u16(void)> get)
         : set(std::move(set)), get(std::move(get)) {}
-    Cell() {
-        std::shared_ptr<u16> storage = std::make_shared<u16>(0);
-        set = [storage, this](u16 value) {
+    Cell() : storage(std::make_shared<u16>(0)) {
+        set = [storage = storage, this](u16 value) {
             *storage = value;
             std::printf("MMIO: cell %04X set = %04X\n", index, value);
         };
-        get = [storage, this]() -> u16 {
+        get = [storage = storage, this]() -> u16 {
             std::printf("MMIO: cell %04X get\n", index);
             return *storage;
         };
@@ -82,6 +84,7 @@ struct Cell {
     static Cell BitFieldCell(const std::vector<BitFieldSlot>& slots) {
         Cell cell({}, {});
         std::shared_ptr<u16> storage = std::make_shared<u16>(0);
+        cell.storage = storage;
         cell.set = [storage, slots](u16 value) {
             for (const auto& slot : slots) {
                 if (slot.set) {
@@ -353,6 +356,14 @@ MMIORegion::MMIORegion(MemoryInterfaceUnit& miu, ICU& icu, Apbp& apbp_from_cpu, 
 }
 
 MMIORegion::~MMIORegion() = default;
+
+void MMIORegion::Reset() {
+    for (auto& cell : impl->cells) {
+        if (cell.storage) {
+            *cell.storage = 0;
+        }
+    }
+}
 
 u16 MMIORegion::Read(u16 addr) {
     u16 value = impl->cells[addr].get();
